@@ -9,6 +9,7 @@ from ..engine import norm
 from ..runner import DEFAULT_FEATURES, FEATURE_SETS, effective
 
 LEVEL = "proof"
+CONFIG_HANDLED = True
 RULE_TEXT = ("effect rule over the resolved call graph: every function reachable from the slice-parser API roots may only call "
              "callees defined in crate `core` (or in the crate itself) and may only hold values of ADTs defined in `core` or the "
              "crate; `core` has no allocator, so no path to the global allocator exists. Plus: all 8 feature subsets type-check, "
